@@ -955,6 +955,31 @@ class AffineDomain(Domain):
         except Exception:
             return False
 
+    def decide(self, c, pcs=(), extra=()):
+        """Truth of a symbolic condition on every state that satisfies the path conditions: True / False / None (depends on the state, or not provable)."""
+        if isinstance(c, Const):
+            return bool(c.value)
+        if isinstance(c, BoolC):
+            def alts(cc):
+                return [BoolC(cc.diff, "<"), BoolC(cc.diff, ">")] if cc.op == "!=" else [cc]
+
+            def never(cc):
+                try:
+                    return all(self.prove_ge(Poly.const(-1), list(pcs) + [x], extra) for x in alts(cc))
+                except Exception:
+                    return False
+            if never(c.negate()):
+                return True
+            if never(c):
+                return False
+            return None
+        if isinstance(c, (BoolOr, BoolAnd)):
+            vals = [self.decide(x, pcs, extra) for x in c.parts]
+            if isinstance(c, BoolOr):
+                return True if any(v is True for v in vals) else (False if all(v is False for v in vals) else None)
+            return False if any(v is False for v in vals) else (True if all(v is True for v in vals) else None)
+        return None
+
     def sign_positive(self, p: Poly) -> bool:
         """p is a single monomial with positive coefficient whose atoms are all known-positive symbols."""
         if len(p.t) != 1:
